@@ -63,7 +63,7 @@ def run_contract(name, prop, tier, seed, only=None):
         return [Res('bounded::' + name, 'bounded', 'ok', [prop], backend, secs, bounded=b, extra={'samples': d.get('samples', [])[:2]})], info
     out = []
     os.makedirs(os.path.join(ROOT, 'replays'), exist_ok=True)
-    for k, f in enumerate(d['failures'][:25]):
+    for k, f in enumerate(d["failures"][:60]):
         mcls = re.match(r'\[([^\]]+)\]', f.get('what', ''))
         klass = mcls.group(1) if mcls else None
         rp = os.path.join(ROOT, 'replays', 'bounded_%s_%d.json' % (name, k))
@@ -77,11 +77,16 @@ def run_contract(name, prop, tier, seed, only=None):
     return out, info
 
 
-def cex_search(contracts, res, seed):
-    """Counterexample search after a failed Verus obligation: run the paired bounded contracts."""
+def cex_search(contracts, res, seed, is_known=None):
+    """Counterexample search after a failed or undecided Verus obligation: run the paired bounded contracts.  A failure that is a
+    recorded known finding (same obligation and cause class) is NOT a counterexample for the obligation at hand."""
+    skipped = 0
     for c in contracts:
         rs, _ = run_contract(c, 'cex', 'quick', seed)
         for r in rs:
             if r.status == 'fail' and r.replay:
+                if is_known is not None and is_known(r):
+                    skipped += 1
+                    continue
                 return {'contract': c, 'failing_input': r.replay}
-    return {'contracts_tried': contracts, 'failing_input': None}
+    return {'contracts_tried': contracts, 'failing_input': None, 'known_findings_skipped': skipped}
